@@ -376,7 +376,11 @@ impl ExecutableContent for If {
         let r = datamodel
             .execute_condition(&self.condition)
             .unwrap_or_else(|e| {
+                // W3C: if the evaluation of a conditional expression causes an error, the
+                // processor must treat it as 'false' and must place 'error.execution' in the
+                // internal event queue.
                 warn!("Condition {} can't be evaluated. {}", self.condition, e);
+                datamodel.internal_error_execution();
                 false
             });
         if r {
